@@ -227,7 +227,7 @@ func hdr(maj byte, n uint64) []byte {
 
 func TestCheck(t *testing.T) {
 	r := vp.New("C10", "exploration",
-		"messages: {CIDv0, CIDv1 x 3 codecs x 3 hash functions} x {every list of 0..3 addresses over a 5-symbol alphabet incl. unknown-protocol, empty and 300-byte strings} x {extra data nil/empty/1/24/256 bytes} x {orig peer absent/present}, CBOR and JSON round trips; HTTP sender (CBOR and JSON) and pubsub sender for every address list of <=3 over {3 valid, 1 unknown-protocol}; CBOR decoder: for each corpus encoding every single-byte substitution, every truncation, every CBOR header token at every offset (replacing 0 or 1 byte) singly and a reduced token set in adjacent pairs, lengths at and just above each cap, all byte strings of length <=2. Non-trivial: messages with at least one address or extra data; decoder inputs other than the corpus.",
+		"messages: {CIDv0, CIDv1 x 3 codecs x 3 hash functions} x {every list of 0..3 addresses over a 5-symbol alphabet incl. unknown-protocol, empty and 300-byte strings} x {extra data nil/empty/1/24/256 bytes} x {orig peer absent/present}, CBOR and JSON round trips; HTTP sender (CBOR and JSON) and pubsub sender for every address list of <=3 over {3 valid, 1 unknown-protocol}, the HTTP sender also with extra data whose only, first or last byte is each of the 256 byte values (lists of <=1 address); CBOR decoder: for each corpus encoding every single-byte substitution, every truncation, every CBOR header token at every offset (replacing 0 or 1 byte) singly and a reduced token set in adjacent pairs, lengths at and just above each cap, all byte strings of length <=2. Non-trivial: messages with at least one address or extra data; decoder inputs other than the corpus.",
 		"equality treats nil and empty byte fields alike",
 		"allocation bound: input length + 2 x ByteArrayMaxLen + 256 KiB",
 		"decoder inputs run in a worker subprocess with a 6 GiB address-space limit",
@@ -582,8 +582,20 @@ func checkSenders(r *vp.Recorder) {
 	gen(nil)
 	for _, l := range lists {
 		for _, mode := range []string{"cbor", "json"} {
-			for _, extra := range [][]byte{nil, []byte("extra-data")} {
+			extras := [][]byte{nil, []byte("extra-data")}
+			if len(l) <= 1 {
+				// extra data is an opaque byte string: every byte value as its
+				// only, its first and its last byte (the body that goes on the
+				// wire ends with it when there is no original-peer field)
+				for b := 0; b < 256; b++ {
+					extras = append(extras, []byte{byte(b)}, []byte{'x', 'd', byte(b)}, []byte{byte(b), 'x', 'd'})
+				}
+			}
+			for _, extra := range extras {
 				key := fmt.Sprintf("httpsend|%s|%v|extra=%d", mode, l, len(extra))
+				if len(extra) > 0 && len(extra) <= 3 {
+					key = fmt.Sprintf("httpsend|%s|%v|extra=x%x", mode, l, extra)
+				}
 				if !r.Mine(key) {
 					continue
 				}
